@@ -172,11 +172,12 @@ def main():
             for c in fr["clauses"]:
                 m = clauses.setdefault(c["clause"], {"evaluations": 0, "nt": set(), "excluded_known": 0, "excluded_bucket": 0,
                                                      "classes": {}, "samples": [], "exhaustive": None, "rule": c["rule"],
-                                                     "max_line_events": 0, "wall_s": 0.0})
+                                                     "max_line_events": 0, "wall_s": 0.0, "inconclusive": 0})
                 s = c["stats"]
                 m["evaluations"] += s["evaluations"]
                 m["excluded_known"] += s["excluded_known"]
                 m["excluded_bucket"] += s["excluded_bucket"]
+                m["inconclusive"] += s.get("inconclusive", 0)
                 m["max_line_events"] = max(m["max_line_events"], s.get("max_line_events", 0))
                 m["wall_s"] = max(m["wall_s"], c.get("wall_s", 0))
                 m["nt"].update(c["nt_digests"])
@@ -217,7 +218,7 @@ def main():
                 "rule": " || ".join("%s: %s" % (n, m["rule"]) for n, m in clauses.items()),
                 "samples": samples[:12],
                 "clauses": {n: {"evaluations": m["evaluations"], "distinct_nontrivial": len(m["nt"]), "excluded_known": m["excluded_known"],
-                                "excluded_by_found_bucket": m["excluded_bucket"], "classes": m["classes"],
+                                "excluded_by_found_bucket": m["excluded_bucket"], "inconclusive_watchdog": m["inconclusive"], "classes": m["classes"],
                                 "max_line_events": m["max_line_events"], "slowest_worker_s": m["wall_s"]} for n, m in clauses.items()},
                 "hash_seeds": seeds, "exhaustive_tiers": ex_tiers, "exhaustive": False,
                 "replays_run": len(replays), "replays_passing": replays_passing,
@@ -231,6 +232,11 @@ def main():
         with open(os.path.join(evdir, "%s.json" % prop), "w", encoding="utf8") as f:
             json.dump(ev, f, ensure_ascii=False, indent=1)
 
+        for n, m in clauses.items():
+            if m["inconclusive"]:
+                lines.append("INCONCLUSIVE: clause %s: %d of %d cases hit the per-case wall-clock watchdog (not counted as pass or violation)" % (n, m["inconclusive"], m["evaluations"]))
+                if m["inconclusive"] * 20 > m["evaluations"]:
+                    errors.append("clause %s: more than 5%% of the cases were inconclusive" % n)
         # generator-drift warning
         for n, m in clauses.items():
             if m["evaluations"] >= 50 and len(m["nt"]) * 20 < m["evaluations"] - m["excluded_known"] and not m["exhaustive"]:
